@@ -27,6 +27,13 @@ CHECKS = {
              'surviving nodes the union of all writers\' metadata with the winner\'s values. The oracle is independent of any merge model.',
         note='Lists are atomic values; nested differing priority tags on one path are out of the stated domain.',
         design='4/C03'),
+    'C04': dict(
+        technique='property-based differential testing (Hypothesis): four sub-domains with direct oracles (exact content, strictly-higher-priority survivors, key-/index-wise combination, !clear / value-less !del)',
+        text='Older tree x newer document with one focus node at depth 0-3 along existing keys (key names biased to coincide with ancestor '
+             'names): deleting focus leaves exactly its content (pruned !call nodes must not run), protected older entries survive exactly when '
+             'strictly higher in priority, !merge combines key-/index-wise under the documented flag inheritance, !clear empties, value-less !del removes.',
+        note='Direct per-sub-domain oracles instead of a full merge model; overlaps the statement leaves open are skipped and counted.',
+        design='4/C04'),
     'C05': dict(
         technique='property-based metamorphic testing (Hypothesis): build(D_i) vs build({k..: D_i}) vs build with unrelated sibling content',
         text='Generated merge sequences over priority/!del/!merge/!new/!notnew tags are built unwrapped, wrapped under a key chain drawn from the '
